@@ -103,6 +103,8 @@ func runC14(c *Ctx) {
 	checkPageTagging(c, "R9")
 	checkHandleObjectsClosedOnlyByClose(c, "R10")
 	checkWorkersAccountedFor(c, "R11")
+	// R12 (shared with C18.R3): the pages of a READ's reply are released after the reply was written
+	c.withOnly("R3", "R12", func() { runC18(c) })
 	d := getDispatcher(c, "R1")
 	if d == nil {
 		return
